@@ -3,6 +3,7 @@ after every operation (successful or raising).  Validated by spec/SessionTrace.t
 from __future__ import annotations
 
 import hashlib
+import os
 import importlib
 import random
 import signal
@@ -267,6 +268,46 @@ def _stability_session(job, emit, mod, p0, prog, ctx):
     meta = [{"op": "(the same calls again)", "args": f"{len(keep)} calls, {n_between} unrelated operations in between",
              "ok": False, "exc": "", "on": 0, "calls": [f"{pick[k].op}({pick[k].args})" for k in keep]}]
     emit("rec", {"prog": prog, "session": "stability", "trace": trace, "meta": meta, "texts": [_safe_str(p0)]})
+
+
+def _module_stability_job(job, emit):
+    """One stability session per corpus module, observed by harness/stabrun.py in a fresh interpreter (the pool's workers
+    have already analysed other procedures)."""
+    import json as _json
+    import subprocess
+    import sys as _sys
+    emit("begin", 0)
+    env = dict(os.environ)
+    p = subprocess.run([_sys.executable, "-m", "harness.stabrun", job["module"], str(job["seed"]), str(job["per_proc"])],
+                       cwd=os.path.dirname(os.path.dirname(os.path.abspath(__file__))), env=env, capture_output=True, text=True,
+                       timeout=3000)
+    line = [l for l in p.stdout.splitlines() if l.startswith("{")]
+    if not line:
+        raise RuntimeError("stabrun produced no result: " + p.stderr[-800:])
+    r = _json.loads(line[-1])
+    iso, aft = r["isolated"], r["after"]
+    if not isinstance(aft, list):
+        raise RuntimeError(f"stabrun second pass failed: {aft}")
+    keep = [k for k in range(len(iso)) if isinstance(iso[k], str) and iso[k] != "T" and aft[k] != "T"]
+    if keep:
+        trace = {"init": {"fps": [iso[k] for k in keep], "cfps": []},
+                 "events": [{"op": "(the same calls after operations on every procedure of the module)", "ok": False,
+                             "fps": [aft[k] for k in keep], "cfps": []}]}
+        meta = [{"op": "(the same calls after operations on every procedure of the module)",
+                 "args": f"{len(keep)} calls, each first observed alone in a forked child; {r['between']} other operations before the second observation",
+                 "ok": False, "exc": "", "on": 0, "calls": [r["calls"][k] for k in keep]}]
+        emit("rec", {"prog": job["module"].split(".")[-1] + ".*", "session": "module-stability", "trace": trace, "meta": meta,
+                     "texts": [""]})
+
+
+def run_module_stability(modules, seed, per_proc=3, maxprocs=60):
+    from .pool import stream_pool
+    from .common import MachineryError
+    jobs = [{"module": m, "seed": seed, "per_proc": per_proc, "maxprocs": maxprocs} for m in modules]
+    recs, crashes, hangs = stream_pool(jobs, _module_stability_job, NCPU, silence=600)
+    if crashes:
+        raise MachineryError("purity module-stability worker crashed:\n" + crashes[0][1])
+    return recs
 
 
 def run(modules, seed, sessions, length, maxprocs=14, select=None, sweep=0, stability=0):
